@@ -272,6 +272,72 @@ def maximizationOut {β : Type} (core : DiscreteFree α β → List Nat) (v : Di
 
 end Discrete
 
+/-! ## 1b. `SpansBySamples.second_pass` (tsdate/prior.py): spans a skipped unary node borrows from a dated ancestor
+
+    for tree in trees_with_undated, for node in unassigned_nodes (with a parent in the tree):
+        n = first ancestor of node in this tree that already has spans
+        for n_tips, spans in self._spans[n].items():
+            for k, v in spans.items():
+                local_weight = v / self.node_spans[n]
+                self._spans[node][n_tips][k] += tree.span * local_weight / 2
+        self._spans[node][total_tips][desc_tips] += tree.span / 2
+
+The tree traversal (which ancestor, which tree) reads topology only and is an input of the model (a list of
+visits); the model does the arithmetic on the span tables. -/
+
+section SecondPass
+variable {α : Type} [Add α] [Mul α] [Div α] [OfNat α 0]
+
+/-- `d[key] += x` on a `defaultdict(float)` kept as an association list in insertion order -/
+def addKey (acc : List ((Nat × Nat) × α)) (key : Nat × Nat) (x : α) : List ((Nat × Nat) × α) :=
+  match acc with
+  | [] => [(key, 0 + x)]
+  | (k, v) :: rest => if k = key then (k, v + x) :: rest else (k, v) :: addKey rest key x
+
+/-- the span table `self._spans[u]` flattened to `((total tips, descendant tips), span)` entries -/
+def spansOf (st : List (Nat × List ((Nat × Nat) × α))) (u : Nat) : List ((Nat × Nat) × α) :=
+  match st with
+  | [] => []
+  | (v, l) :: rest => if v = u then l else spansOf rest u
+
+def setSpans (st : List (Nat × List ((Nat × Nat) × α))) (u : Nat) (l : List ((Nat × Nat) × α)) :
+    List (Nat × List ((Nat × Nat) × α)) :=
+  match st with
+  | [] => [(u, l)]
+  | (v, l0) :: rest => if v = u then (v, l) :: rest else (v, l0) :: setSpans rest u l
+
+/-- one visit of the second pass: `node` borrows from ancestor `anc` in a tree of span `treeSpan` with
+`total` sample tips in which `node` has `desc` descendant tips -/
+structure Visit (α : Type) where
+  node : Nat
+  anc : Nat
+  treeSpan : α
+  total : Nat
+  desc : Nat
+
+def secondPassVisit (two : α) (nodeSpans : List α) (st : List (Nat × List ((Nat × Nat) × α))) (v : Visit α) :
+    List (Nat × List ((Nat × Nat) × α)) :=
+  let borrowed := (spansOf st v.anc).foldl
+    (fun acc kv => addKey acc kv.1 (v.treeSpan * (kv.2 / nodeSpans.getD v.anc 0) / two)) (spansOf st v.node)
+  setSpans st v.node (addKey borrowed (v.total, v.desc) (v.treeSpan / two))
+
+/-- the whole second pass over the list of visits -/
+def secondPass (two : α) (nodeSpans : List α) (st : List (Nat × List ((Nat × Nat) × α))) (visits : List (Visit α)) :
+    List (Nat × List ((Nat × Nat) × α)) :=
+  visits.foldl (secondPassVisit two nodeSpans) st
+
+end SecondPass
+
+section MixKeyed
+variable {α : Type} [Add α] [Sub α] [Mul α] [Div α] [OfNat α 0]
+
+/-- `mixture_expect_and_var` on the entries of a span table: the conditional-coalescent mean and variance of an
+entry depend on its key `(total tips, descendant tips)` only, its weight is its span -/
+def mixtureKeyed (meanOf varOf : Nat × Nat → α) (entries : List ((Nat × Nat) × α)) : α × α :=
+  mixtureMeanVar (entries.map (fun kv => meanOf kv.1)) (entries.map (fun kv => varOf kv.1)) (entries.map (fun kv => kv.2))
+
+end MixKeyed
+
 /-! ## 3. time rescaling of the variational method (tsdate/rescaling.py) -/
 
 section Rescale
